@@ -1,5 +1,17 @@
 /-
 C16 — property theorems (symbolic dimension expressions).
+
+Round 1/2: `C16_partial`, `C16_eval_free`, `C16_int_ops`, `C16_int_eval`, `C16_parser_sound_complete`,
+`C16_print_parse`, `C16_print_parse_text`, `C16_fast_path`, `C16_tokenize_spec`, `C16_tokenize_render`
+(model: Model/SymExpr.lean).
+Round 3 (deepening): the glue between Python operators and expressions (Model/SymDim.lean):
+`C16_overload_sem`, `C16_overload_dispatch`, `C16_shape_evaluate`, `C16_simplify_guard`, `C16_eq_hash`;
+parser / tokenizer totality with the linear fuel bound: `C16_parser_total`; the tokenizer over an
+arbitrary character classification (Model/SymLexU.lean): `C16_tokenize_classes`; SymPy's surface
+forms (Model/SymExprSympy.lean): `C16_print_parse_sympy`.
+Still outside every theorem (tested on every run): SymPy's construction / automatic simplification /
+`subs` / `simplify` (that the object SymPy holds means what the operator tree means), CPython's
+Unicode tables and operator dispatch.
 -/
 import IrVerif.Model.SymExpr
 import IrVerif.Lemmas.SymExprArith
@@ -8,6 +20,9 @@ import IrVerif.Lemmas.SymExprPrint
 import IrVerif.Lemmas.SymExprText
 import IrVerif.Lemmas.SymExprInt
 import IrVerif.Lemmas.SymExprLex
+import IrVerif.Lemmas.SymDim
+import IrVerif.Lemmas.SymLexU
+import IrVerif.Lemmas.SymExprSympy
 namespace IrVerif.SymExpr
 
 /-- **C16_partial**: binding some symbols first and the rest later gives the value of binding
@@ -275,5 +290,285 @@ example : ¬ ∃ ts, Lex ['.', '5'] ts := (C16_tokenize_spec ['.', '5']).2.mp (b
     (numbers in decimal, identifier tokens carrying identifier texts). -/
 theorem C16_tokenize_render (ts : List Tok) (h : ∀ t ∈ ts, WfTok t) : tokenize (render ts) = some ts :=
   tokenize_render ts h
+
+
+/-! ## Deepening (round 3): the operator overloads, `evaluate`, `Shape`, parser totality -/
+
+/-- **C16_overload_sem**: every operator overload of `SymbolicDim` denotes the integer operation it
+    is named after.  For a dimension with expression `a`, any accepted right operand `y` (an `int`
+    literal or a dimension, standing for the expression `b`), any `int` left operand `n` and every
+    operator `o` other than `**` (which has no overload):
+    * the forward method `a.__o__(y)` (= the Python expression `a o y`) returns a dimension whose
+      tree evaluates, under every binding, like `a o b` with the model's `+ - * / // %` — in
+      particular `floor(a / b)` built for `//` is floor division, `Rational(1, n) * a` built for
+      `a / n` is true division — and on integer values `x`, `z` gives exactly Python's own result
+      `x o z` (`Int.fdiv` / `Int.fmod` with the divisor's sign, `ZeroDivisionError` = no value);
+    * the reflected method `a.__ro__(n)` (= `n o a`) likewise denotes `n o a` — `n + a` and `n * a`,
+      which the code computes as `a + n` and `a * n`, included;
+    * `-a`, `math.floor(a)`, `math.ceil(a)`, `math.trunc(a)` evaluate to `-q`, `floor q`,
+      `ceiling q = -floor(-q)` and `trunc q` (toward zero) of the exact value `q` of `a`; the
+      `sign(a) * floor(Abs(a))` tree built for trunc is that truncation. -/
+theorem C16_overload_sem (o : BOp) (ho : o ≠ .pow) (u : UOp) (a : Expr) (n : Int) (y : Operand)
+    (b : Expr) (hy : y.asExpr = some b) :
+    (∃ t, dunder o (.expr a) y = .ok (.expr t) ∧ binop o (.dim (.expr a)) y = .ok (.expr t) ∧
+      ∀ env, eval env t = eval env (.bin o.den a b) ∧
+        ∀ x z : Int, eval env a = some (x : Rat) → eval env b = some (z : Rat) →
+          eval env t = pyIntOp o x z) ∧
+    (∃ t, rdunder o (.expr a) (.int n) = .ok (.expr t) ∧
+      binop o (.int n) (.dim (.expr a)) = .ok (.expr t) ∧
+      ∀ env, eval env t = eval env (.bin o.den (.num n) a) ∧
+        ∀ x : Int, eval env a = some (x : Rat) → eval env t = pyIntOp o n x) ∧
+    (∃ t, unop u (.expr a) = .ok (.expr t) ∧ pyUnop u (.expr a) = .ok (.expr t) ∧
+      ∀ env, eval env t = eval env (.un u.den a) ∧
+        ∀ q : Rat, eval env a = some q → eval env t = some (match u with
+          | .neg => -q
+          | .floor => ((q.floor : Int) : Rat)
+          | .ceil => ((-((-q).floor) : Int) : Rat)
+          | .trunc => ((ratTrunc q : Int) : Rat))) := by
+  refine ⟨?_, ?_, ?_⟩
+  · obtain ⟨t, ht, hsem⟩ := dunder_expr_ok o ho a y b hy
+    refine ⟨t, ht, by simp [binop, ht, Out.toPy], fun env => ⟨hsem env, ?_⟩⟩
+    intro x z hx hz
+    rw [hsem env]
+    simp only [eval, hx, hz]
+    exact evalBin_den_int o x z ho
+  · obtain ⟨t, ht, hsem⟩ := rdunder_expr_ok o ho a n
+    refine ⟨t, ht, by simp [binop, ht, Out.toPy], fun env => ⟨hsem env, ?_⟩⟩
+    intro x hx
+    rw [hsem env]
+    simp only [eval, hx]
+    exact evalBin_den_int o n x ho
+  · refine ⟨unTree u a, rfl, rfl, fun env => ⟨eval_unTree env u a, ?_⟩⟩
+    intro q hq
+    rw [eval_unTree env u a]
+    simp only [eval, hq]
+    cases u <;> rfl
+
+/-- the hypotheses are satisfiable and the trees are the ones the code builds -/
+example : dunder .floordiv (.expr (.sym "N")) (.int 2) =
+    .ok (.expr (.un .floor (.bin .div (.sym "N") (.num 2)))) := rfl
+example : dunder .truediv (.expr (.sym "N")) (.int 2) =
+    .ok (.expr (.bin .mul (.bin .div (.num 1) (.num 2)) (.sym "N"))) := rfl
+example : binop .add (.int 3) (.dim (.expr (.sym "N"))) = .ok (.expr (.bin .add (.sym "N") (.num 3))) := rfl
+example : binop .mod (.int 7) (.dim (.expr (.sym "N"))) = .ok (.expr (.bin .mod (.num 7) (.sym "N"))) := rfl
+example : pyIntOp .floordiv (-7) 2 = some (-4 : Int) := by decide
+example : (Operand.dim (.expr (.sym "M"))).asExpr = some (.sym "M") := rfl
+
+/-- **C16_overload_dispatch**: which operand mixes the operators accept and which raise.  Every
+    operator except `**` accepts every mix of `int` and dimension operands on either side (at least
+    one dimension, texts that parse) and returns a dimension, which is the unknown dimension exactly
+    when an operand is; `**` (no `__pow__` / `__rpow__`) is a TypeError for all operands; a foreign
+    operand (float, str, None ...) next to a known dimension is a TypeError on either side; a text
+    the parser rejects raises ValueError out of every overload that needs its expression. -/
+theorem C16_overload_dispatch (o : BOp) (x y : Operand) (a : Expr) (u : UOp) :
+    (o ≠ .pow → x.accepted = true → y.accepted = true → (x.isDim = true ∨ y.isDim = true) →
+      ∃ d, binop o x y = .ok d ∧ d ≠ .bad ∧
+        (d = .unknown ↔ (x.isUnknown = true ∨ y.isUnknown = true))) ∧
+    binop .pow x y = .typeError ∧
+    (binop o (.dim (.expr a)) .other = .typeError ∧ binop o .other (.dim (.expr a)) = .typeError) ∧
+    (o ≠ .pow → binop o (.dim .bad) y = .valueError ∧
+      binop o (.dim (.expr a)) (.dim .bad) = .valueError) ∧
+    (pyUnop u .unknown = .ok .unknown ∧ pyUnop u .bad = .valueError) := by
+  refine ⟨fun ho hx hy hd => binop_accepts o ho x y hx hy hd, binop_pow x y, binop_other o a, ?_, ?_⟩
+  · intro ho
+    constructor
+    · cases o <;> first | exact absurd rfl ho | rfl
+    · cases o <;> first | exact absurd rfl ho | rfl
+  · exact ⟨rfl, rfl⟩
+
+/-- the quirk the transcription keeps: an unknown dimension on the LEFT absorbs even a foreign
+    operand, and so do the reflected `- / // %`; the reflected `+` and `*` test the type first -/
+example : binop .add (.dim .unknown) .other = .ok .unknown := rfl
+example : binop .sub .other (.dim .unknown) = .ok .unknown := rfl
+example : binop .add .other (.dim .unknown) = .typeError := rfl
+
+/-- **C16_shape_evaluate**: `Shape.evaluate` is dimension-wise `evaluate`.  The loop returns a shape
+    exactly when every dimension evaluates (it raises exactly when some dimension holds a text the
+    parser rejects), and then position by position: an `int` stays, the unknown dimension stays, and
+    a dimension with expression `e` becomes the `int` `z` exactly when all its symbols are bound
+    and its exact value is the integer `z`; otherwise it becomes a residual dimension that
+    evaluates later like `e` under the joined bindings and whose free symbols are exactly the
+    unbound symbols of `e`.  Consequently the result has the same rank, its `free_symbols()` are
+    exactly the unbound ones of the original shape, and a static shape is returned unchanged;
+    `is_dynamic` is the negation of `is_static` (= every dimension is an `int`). -/
+theorem C16_shape_evaluate (b : Env) (sh : Shape) :
+    (∀ sh', Shape.evaluate b sh = some sh' ↔
+      List.Forall₂ (fun d d' => SDim.evaluate b d = some d') sh sh') ∧
+    (Shape.evaluate b sh = none ↔ SDim.dim .bad ∈ sh) ∧
+    (∀ n, SDim.evaluate b (.int n) = some (.int n)) ∧
+    SDim.evaluate b (.dim .unknown) = some (.dim .unknown) ∧
+    (∀ e, EvalSpec b e ((Dim.expr e).evaluate b)) ∧
+    (∀ sh', Shape.evaluate b sh = some sh' → sh'.length = sh.length ∧
+      ∃ l l', Shape.freeSymbols sh = some l ∧ Shape.freeSymbols sh' = some l' ∧
+        ∀ s, s ∈ l' ↔ (s ∈ l ∧ b s = none)) ∧
+    (Shape.isStatic sh = true → Shape.evaluate b sh = some sh) ∧
+    Shape.isDynamic sh = sh.any (fun d => !d.isInt) := by
+  refine ⟨shape_evaluate_iff b sh, shape_evaluate_none b sh, fun _ => rfl, rfl,
+    evaluate_spec b, ?_, ?_, ?_⟩
+  · intro sh' h
+    have hf := (shape_evaluate_iff b sh sh').mp h
+    obtain ⟨h1, h2, h3⟩ := forall2_evaluate_free b hf
+    obtain ⟨l, hl, hlm⟩ := shape_freeSymbols_spec sh h1
+    obtain ⟨l', hl', hlm'⟩ := shape_freeSymbols_spec sh' h2
+    refine ⟨hf.length_eq.symm, l, l', hl, hl', fun s => ?_⟩
+    rw [hlm' s, hlm s, h3 s]
+  · intro hs
+    exact (shape_evaluate_iff b sh sh).mpr (shape_evaluate_static b sh hs)
+  · simp only [Shape.isDynamic, Shape.isStatic]
+    induction sh with
+    | nil => rfl
+    | cons d rest ih => simp only [List.all_cons, List.any_cons, Bool.not_and, ih]
+
+/-- both outcomes of a dimension occur: complete with an integer value, and residual -/
+example : (Dim.expr (.bin .add (.sym "N") (.num 1))).evaluate (Env.ofList [("N", 10)]) = .int 11 := by
+  decide +kernel
+example : (Dim.expr (.bin .add (.sym "N") (.sym "M"))).evaluate (Env.ofList [("N", 3)]) =
+    .dim (.expr (.bin .add (.num 3) (.sym "M"))) := by decide +kernel
+example : Shape.evaluate (Env.ofList [("N", 3)]) [.int 7, .dim .unknown, .dim (.expr (.sym "N"))] =
+    some [.int 7, .dim .unknown, .int 3] := by decide +kernel
+example : Shape.evaluate Env.empty [.dim .bad] = none := by decide
+
+/-- **C16_simplify_guard**: `SymbolicDim.simplify()` keeps every evaluation whenever SymPy's
+    `simplify` does (`simp`, external — tested on every run), whatever the printability test of its
+    result says: the fallback to the original expression is value-preserving by construction. -/
+theorem C16_simplify_guard (simp : Expr → Expr) (printable : Expr → Bool)
+    (hsimp : ∀ e env, eval env (simp e) = eval env e) (d d' : Dim)
+    (h : Dim.simplify simp printable d = some d') :
+    (d = .unknown ∧ d' = .unknown) ∨
+      ∃ e e', d = .expr e ∧ d' = .expr e' ∧ ∀ env, eval env e' = eval env e := by
+  cases d with
+  | unknown => left; simp [Dim.simplify] at h; exact ⟨rfl, h.symm⟩
+  | bad => simp [Dim.simplify] at h
+  | expr e =>
+    right
+    simp only [Dim.simplify] at h
+    by_cases hp : printable (simp e) = true
+    · simp only [hp, if_true, Option.some.injEq] at h
+      exact ⟨e, simp e, rfl, h.symm, fun env => hsimp e env⟩
+    · simp only [hp, Bool.false_eq_true, if_false, Option.some.injEq] at h
+      exact ⟨e, e, rfl, h.symm, fun _ => rfl⟩
+
+/-- the hypothesis is satisfiable (the identity) and the guard can take either branch -/
+example : Dim.simplify id (fun _ => false) (.expr (.sym "N")) = some (.expr (.sym "N")) := rfl
+
+/-- **C16_eq_hash**: equality of dimensions is equality of their texts, hence an equivalence
+    relation consistent with `__hash__` (equal dimensions hash the same key), with comparing to a
+    `str` (`SymbolicDim(s) == s`, same hash key as `s`) and to `None`. -/
+theorem C16_eq_hash (v w x : Option String) (s : String) :
+    dimEq v (.dim v) = true ∧
+    (dimEq v (.dim w) = dimEq w (.dim v)) ∧
+    (dimEq v (.dim w) = true → dimEq w (.dim x) = true → dimEq v (.dim x) = true) ∧
+    (dimEq v (.dim w) = true → dimHashKey v = dimHashKey w) ∧
+    (dimEq v (.str s) = true ↔ dimHashKey v = some s) ∧
+    (dimEq v .none = true ↔ dimHashKey v = none) ∧
+    dimEq v .other = false := by
+  refine ⟨by simp [dimEq], ?_, ?_, ?_, ?_, ?_, rfl⟩
+  · simp only [dimEq]; exact Bool.eq_iff_iff.mpr ⟨fun h => by simpa using (by simpa using h : v = w).symm,
+      fun h => by simpa using (by simpa using h : w = v).symm⟩
+  · simp only [dimEq, beq_iff_eq]; intro h1 h2; exact h1.trans h2
+  · simp only [dimEq, beq_iff_eq, dimHashKey]; exact id
+  · simp only [dimEq, beq_iff_eq, dimHashKey]
+  · simp only [dimEq, dimHashKey, Option.isNone_iff_eq_none]
+
+/-- **C16_parser_total**: the parser never gets stuck.  The fuel `parseTokens` starts with is
+    linear in the input (`5 * length + 8`: five grammar levels per token) and is enough for EVERY
+    token list, not only for sentences: no larger (or smaller) amount of fuel makes the recursive
+    descent accept anything `parseTokens` rejects, or return a different tree — so `none` always
+    means a parse error of the text, never exhaustion; and from that bound on the answer no longer
+    depends on the fuel.  Likewise the tokenizer with any fuel above the text length. -/
+theorem C16_parser_total (ts : List Tok) (cs : List Char) :
+    (∀ g e, parseExpr g ts = some (e, []) → parseTokens ts = some e) ∧
+    (∀ g, fuelFor ts ≤ g →
+      (match parseExpr g ts with | some (e, []) => some e | _ => none) = parseTokens ts) ∧
+    (∀ g toks, tokenizeAux g cs = some toks → tokenize cs = some toks) ∧
+    (∀ g, cs.length < g → tokenizeAux g cs = tokenize cs) := by
+  have h1 : ∀ g e, parseExpr g ts = some (e, []) → parseTokens ts = some e := by
+    intro g e h
+    obtain ⟨d, hd, hs⟩ := (sound_all g).expr ts e [] h
+    have hd' : d.flatten = ts := by simpa using hd.symm
+    rw [← hd', ← hs]
+    exact parseTokens_complete d
+  have h3 : ∀ g toks, tokenizeAux g cs = some toks → tokenize cs = some toks := by
+    intro g toks h
+    exact (tokenize_iff_lex cs toks).mpr (lex_of_tokenizeAux g cs toks h)
+  refine ⟨h1, ?_, h3, ?_⟩
+  · intro g hg
+    cases hp : parseTokens ts with
+    | some e =>
+      obtain ⟨d, hd, hs⟩ := parseTokens_sound hp
+      have hb := (bound_all d).1
+      have hc := complete_all d g [] (by rw [← hd] at hg; simp only [fuelFor] at hg; omega) okExpr_nil
+      simp only [List.append_nil] at hc
+      rw [hd] at hc
+      simp [hc, hs]
+    | none =>
+      cases hg2 : parseExpr g ts with
+      | none => rfl
+      | some p =>
+        obtain ⟨e, r⟩ := p
+        cases r with
+        | nil => rw [h1 g e hg2] at hp; cases hp
+        | cons t r' => rfl
+  · intro g hg
+    cases ht : tokenize cs with
+    | some toks => exact tokenizeAux_of_lex ((tokenize_iff_lex cs toks).mp ht) g hg
+    | none =>
+      cases hg2 : tokenizeAux g cs with
+      | none => rfl
+      | some toks => rw [h3 g toks hg2] at ht; cases ht
+
+/-- a rejected text stays rejected with a thousand times the fuel; an accepted one keeps its tree -/
+example : parseExpr 5000 [.ident "a", .ident "b"] = some (.sym "a", [.ident "b"]) := by decide
+example : parseTokens [.lparen, .ident "a"] = none := by decide
+
+/-- **C16_tokenize_classes**: the tokenizer transcribed over an arbitrary classification of
+    characters (CPython's `str.isspace / isdigit / isalpha / isalnum / isidentifier`, `int()` of a
+    digit run and `str.isidentifier` of the whole text as parameters — the form that is compared with the real tokenizer on
+    non-ASCII text) is, for the ASCII classification, exactly the ASCII tokenizer and
+    `parse_symbolic_expression` model that every other C16 theorem is about. -/
+theorem C16_tokenize_classes (cs : List Char) :
+    tokenizeK asciiClass cs = tokenize cs ∧
+    parseCharsK asciiClass (isIdentifier cs) cs = parseChars cs := by
+  refine ⟨tokenizeK_ascii cs, ?_⟩
+  by_cases h : isIdentifier cs = true
+  · simp [parseCharsK, parseChars, h]
+  · simp only [parseCharsK, parseChars, h, tokenizeK_ascii]
+    cases tokenize cs <;> rfl
+
+/-- a classification under which the parametric tokenizer differs from the ASCII reading: a digit
+    `int()` refuses makes the number token raise; a numeric character continues an identifier -/
+example : tokenizeK (fun c => if c = '²' then .digit none else asciiClass c) ['N', '+', '²'] = none := by
+  decide +kernel
+example : tokenizeK (fun c => if c = '½' then .numeric else asciiClass c) ['N', '½'] =
+    some [.ident "N½"] := by decide +kernel
+example : tokenizeK (fun c => if c = '½' then .numeric else asciiClass c) ['½'] = none := by decide +kernel
+
+/-- **C16_print_parse_sympy_partial**: the exact surface text SymPy's `str()` emits for this
+    fragment parses.  `ppSympy` transcribes SymPy's StrPrinter token by token (`_print_Add` with
+    sign extraction `N - 1`, `-N**2 + M`; `_print_Mul` with sign, rational coefficient split
+    `3*N/4`, `N/2 + 1/2`, denominators `N/(2*M)`, `M/N**2`, parentheses at precedence <= 50
+    `2*(Mod(N, 3))`; `_print_Pow` `1/N`, `2**(-N)`, `(N + 1)**2`; `floor ceiling Abs sign Mod Max Min`
+    calls) from the SymPy object `s` (external; `SWf` = the canonical-form facts used, decidable,
+    evaluated on every generated case).  Proved: the model parser accepts that text and returns
+    exactly the tree `surf s`.  PARTIAL — what is missing for the full statement "parse (ppSympy s)
+    evaluates like s": `∀ env, eval env (surf s) = eval env (sden s)` (that reading `-3*N/4` as
+    `((-3)*N)/4`, `a - b` for `a + (-b)`, `x/(c*d)` for `x * c**-1 * d**-1` ... preserves the exact
+    value, `none` cases included) is NOT proved; it is computed exactly on both sides by the model
+    and compared on every run (driver `sym.sympy_pp`: `vals_parsed` = `vals_den`), together with
+    token-exactness of `ppSympy` against the real `str()`. -/
+theorem C16_print_parse_sympy_partial (s : SExpr) (h : SWf s) :
+    parseTokens (ppSympy s) = some (surf s) :=
+  parse_ppSympy_surf s h
+
+/-- the hypothesis holds on SymPy's canonical forms, e.g. `-N**2`, `N/2 + 1/2`, `2*(Mod(N, 3))` -/
+example : SWf (.mul [.int (-1), .pow (.sym "N") (.int 2)]) := by decide
+example : ppSympy (.mul [.int (-1), .pow (.sym "N") (.int 2)]) =
+    [.op .minus, .ident "N", .op .dstar, .num 2] := by decide
+example : SWf (.add [.mul [.rat 1 2, .sym "N"], .rat 1 2]) := by decide
+example : ppSympy (.add [.mul [.rat 1 2, .sym "N"], .rat 1 2]) =
+    [.ident "N", .op .slash, .num 2, .op .plus, .num 1, .op .slash, .num 2] := by decide
+example : ppSympy (.mul [.int 2, .fn .mod [.sym "N", .int 3]]) =
+    [.num 2, .op .star, .lparen, .ident "Mod", .lparen, .ident "N", .comma, .num 3, .rparen, .rparen] := by
+  decide
 
 end IrVerif.SymExpr
